@@ -7,7 +7,7 @@ import numpy as np
 from hypothesis import strategies as st
 
 from vf import arrays as A
-from vf.core import Sub, Violation, ensure, impl
+from vf.core import Reject, Sub, ensure, impl, reference
 
 PROPERTY = "C34"
 PRELOAD = ["dask.array"]
@@ -52,76 +52,40 @@ def _inp(a, v):
     return x, A.build_da({**a, "chunks": a["alts"][v]}, x)
 
 
-def run(spec, v):
-    """-> (list of dask outputs, list of numpy outputs, atol, compare_values)"""
-    import dask.array as da
-
+def call(lib, spec, v):
+    """Evaluate the creation call with lib = np or dask.array (chunk alternative v) -> list of outputs."""
     fn, a = spec["fn"], spec["args"]
-    c = ck(spec["chunks"][v]) if "chunks" in spec else None
+    isda = lib is not np
+    ch = {"chunks": ck(spec["chunks"][v])} if isda and "chunks" in spec else {}
     dt = a.get("dtype")
-    tol, vals = 0.0, True
+    ins = [_inp(i, v)[1 if isda else 0] for i in spec.get("inputs", ())]
     if fn == "arange":
         pos = [a[k] for k in ("start", "stop", "step")[: a["form"]]] if a["form"] > 1 else [a["stop"]]
-        n = np.arange(*pos, dtype=dt)
-        d = da.arange(*pos, chunks=c, dtype=dt)
-        if n.dtype.kind == "f":
-            tol = 4 * max(n.size, 1) * np.finfo(n.dtype).eps * max(abs(a.get("start", 0)), abs(a["stop"]), 1e-300)
-    elif fn == "linspace":
-        kw = dict(num=a["num"], endpoint=a["endpoint"], dtype=dt)
-        n = np.linspace(a["start"], a["stop"], **kw)
-        d = da.linspace(a["start"], a["stop"], chunks=c, **kw)
-        if a["retstep"]:
-            d, dstep = da.linspace(a["start"], a["stop"], chunks=c, retstep=True, **kw)
-            nstep = np.linspace(a["start"], a["stop"], retstep=True, **kw)[1]
-            # num <= 1 (no spacing; NumPy returns NaN) is outside "values and dtype of the array": not compared
-            if np.isfinite(nstep):
-                ensure(np.isclose(dstep, nstep, rtol=1e-14, atol=0), f"linspace step {dstep} != numpy {nstep}", "step-mismatch", op=fn)
-        if n.dtype.kind == "f":
-            tol = 4 * max(n.size, 1) * np.finfo(n.dtype).eps * max(abs(a["start"]), abs(a["stop"]), 1e-300)
-    elif fn == "eye":
-        n = np.eye(a["N"], a["M"], a["k"], dtype=dt or float)
-        d = da.eye(a["N"], chunks=c, M=a["M"], k=a["k"], **({"dtype": dt} if dt else {}))
-    elif fn == "tri":
-        n = np.tri(a["N"], a["M"], a["k"], dtype=dt or float)
-        d = da.tri(a["N"], a["M"], a["k"], dtype=dt or float, chunks=c)
-    elif fn == "indices":
-        n = np.indices(tuple(a["dims"]), dtype=dt or int)
-        d = da.indices(tuple(a["dims"]), dtype=dt or int, chunks=c)
-    elif fn == "fromfunction":
-        f = FROMFUNCS[a["func"]]
-        n = np.fromfunction(f, tuple(a["shape"]), dtype=dt or float)
-        d = da.fromfunction(f, shape=tuple(a["shape"]), dtype=dt, chunks=c)
-    elif fn in ("ones", "zeros", "empty", "full"):
-        extra = [a["fill"]] if fn == "full" else []
+        return [lib.arange(*pos, dtype=dt, **ch)]
+    if fn == "linspace":
+        r = lib.linspace(a["start"], a["stop"], num=a["num"], endpoint=a["endpoint"], dtype=dt, retstep=a["retstep"], **ch)
+        return list(r) if a["retstep"] else [r]
+    if fn == "eye":
+        return [lib.eye(a["N"], M=a["M"], k=a["k"], **({"dtype": dt} if dt else {}), **ch)]
+    if fn == "tri":
+        return [lib.tri(a["N"], a["M"], a["k"], dtype=dt or float, **ch)]
+    if fn == "indices":
+        return [lib.indices(tuple(a["dims"]), dtype=dt or int, **ch)]
+    if fn == "fromfunction":
+        return [lib.fromfunction(FROMFUNCS[a["func"]], shape=tuple(a["shape"]), dtype=dt or float, **ch)]
+    if fn in ("ones", "zeros", "empty", "full"):
         shp = a["shape"][0] if a.get("int_shape") else tuple(a["shape"])
-        n = getattr(np, fn)(shp, *extra, dtype=dt)
-        d = getattr(da, fn)(shp, *extra, dtype=dt, chunks=c)
-        vals = fn != "empty"
-    elif fn in ("ones_like", "zeros_like", "empty_like", "full_like"):
-        xn, xd = _inp(spec["inputs"][0], v)
-        extra = [a["fill"]] if fn == "full_like" else []
-        kw = {"dtype": dt}
-        if a.get("shape") is not None:
-            kw["shape"] = tuple(a["shape"])
-        n = getattr(np, fn)(xn, *extra, **kw)
-        d = getattr(da, fn)(xd, *extra, chunks=c, **kw)
-        vals = fn != "empty_like"
-    elif fn == "diag":
-        xn, xd = _inp(spec["inputs"][0], v)
-        n, d = np.diag(xn, a["k"]), da.diag(xd, a["k"])
-    elif fn == "diagonal":
-        xn, xd = _inp(spec["inputs"][0], v)
-        n, d = np.diagonal(xn, a["k"], a["axis1"], a["axis2"]), da.diagonal(xd, a["k"], a["axis1"], a["axis2"])
-    elif fn == "meshgrid":
-        pairs = [_inp(i, v) for i in spec["inputs"]]
-        kw = dict(indexing=a["indexing"], sparse=a["sparse"])
-        n = list(np.meshgrid(*[p[0] for p in pairs], **kw))
-        d = list(da.meshgrid(*[p[1] for p in pairs], **kw))
-        ensure(len(n) == len(d), f"meshgrid returned {len(d)} arrays, numpy {len(n)}", "count-mismatch", op=fn)
-        return d, n, tol, vals
-    else:
-        raise ValueError(fn)
-    return [d], [n], tol, vals
+        return [getattr(lib, fn)(shp, *([a["fill"]] if fn == "full" else []), dtype=dt, **ch)]
+    if fn.endswith("_like"):
+        kw = {"shape": tuple(a["shape"])} if a.get("shape") is not None else {}
+        return [getattr(lib, fn)(ins[0], *([a["fill"]] if fn == "full_like" else []), dtype=dt, **kw, **ch)]
+    if fn == "diag":
+        return [lib.diag(ins[0], a["k"])]
+    if fn == "diagonal":
+        return [lib.diagonal(ins[0], a["k"], a["axis1"], a["axis2"])]
+    if fn == "meshgrid":
+        return list(lib.meshgrid(*ins, indexing=a["indexing"], sparse=a["sparse"]))
+    raise ValueError(fn)
 
 
 def eye_short_wide(spec, v):
@@ -136,22 +100,35 @@ def eye_short_wide(spec, v):
 def check(spec):
     import dask.array as da
 
-    fn = spec["fn"]
+    fn, a = spec["fn"], spec["args"]
+    with np.errstate(all="ignore"):
+        status, ns = reference(call, np, spec, 0)
+    if status == "err":
+        raise Reject(f"NumPy rejects the arguments: {ns}")
+    shapes = [spec["shape"]] if "shape" in spec else [i["shape"] for i in spec["inputs"]]
     for v in (0, 1):
         zero = any(A.has_zero_chunk(c) for c in _explicit(spec, v))
-        shapes = [spec["shape"]] if "shape" in spec else [i["shape"] for i in spec["inputs"]]
         sig = dict(op=fn, zero_chunk=zero, zero_length=any(0 in s for s in shapes))
         if fn == "eye":
             sig["eye_short_wide"] = eye_short_wide(spec, v)
         if fn == "linspace":
-            sig["int_dtype"] = np.dtype(spec["args"].get("dtype") or "f8").kind in "iu"
+            sig["int_dtype"] = np.dtype(a.get("dtype") or "f8").kind in "iu"
         with impl(fn, **sig), np.errstate(all="ignore"):
-            ds, ns, tol, vals = run(spec, v)
+            ds = call(da, spec, v)
             gots = [d.compute(scheduler="sync") if isinstance(d, da.Array) else d for d in ds]
-        for d, got, n in zip(ds, gots, ns):
+        ensure(len(ds) == len(ns), f"{fn} returned {len(ds)} outputs, numpy {len(ns)}", "count-mismatch", **sig)
+        for j, (d, got, n) in enumerate(zip(ds, gots, ns)):
+            if fn == "linspace" and j == 1:
+                # retstep. num <= 1 has no spacing (NumPy returns NaN, dask the range): outside "values of the array"
+                if np.isfinite(n):
+                    ensure(np.isclose(d, n, rtol=1e-14, atol=0), f"linspace step {d} != numpy {n}", "step-mismatch", **sig)
+                continue
             ensure(isinstance(d, da.Array), f"{fn} returned {type(d).__name__}, not a dask array", "not-dask", **sig)
-            if vals:
-                A.same_array(got, n, exact=tol == 0.0, rtol=0.0, atol=tol, what=f"{fn} {spec['args']} chunks#{v}", sig=sig)
+            tol = 0.0
+            if fn in ("arange", "linspace") and n.dtype.kind == "f":
+                tol = 4 * max(n.size, 1) * float(np.finfo(n.dtype).eps) * max(abs(a.get("start", 0)), abs(a["stop"]), 1e-300)
+            if not fn.startswith("empty"):
+                A.same_array(got, n, exact=tol == 0.0, rtol=0.0, atol=tol, what=f"{fn} {a} chunks#{v}", sig=sig)
             else:
                 ensure(np.shape(got) == np.shape(n) and np.asarray(got).dtype == n.dtype, f"{fn}: shape/dtype {np.shape(got)}/{np.asarray(got).dtype} != numpy {n.shape}/{n.dtype}", "shape-mismatch", **sig)
             A.check_meta(d, got, what=fn, sig=sig)
